@@ -625,6 +625,7 @@ Error BaseBuilder::_emit(InstId inst_id, const Operand_& o0, const Operand_& o1,
 
   if (Support::test(options, InstOptions::kReserved)) {
     if (ASMJIT_UNLIKELY(!_code)) {
+      reset_state();
       return make_error(Error::kNotInitialized);
     }
 
